@@ -1,4 +1,4 @@
 From Gv Require Import lib.Bytes lib.Json lib.Gql lib.Exec lib.ExtractAnchor C04.Model C04.Spec.
 Require Import ExtrOcamlBasic.
 Extraction Language OCaml.
-Extraction "model.ml" extraction_anchor json_eqb spec_valid_b spec_report merge_fields merge_fields_ignoring_args.
+Extraction "model.ml" extraction_anchor json_eqb spec_valid_b spec_report merge_fields merge_fields_ignoring_args go_overlap_ok.
